@@ -3,6 +3,6 @@ CONSTANTS Agents = {"a1","a2"}
  NSteps = 2
  AllowCrash = FALSE
  FixStatus = TRUE
- ExclusiveBind = TRUE
-INVARIANTS C16_NoOverlap C16_RefusedRecordsNothing C16_Undisturbed
+ ExclusiveBind = FALSE
+INVARIANTS C16_MutexUnlessWindowRace C16_RefusedRecordsNothing
 CHECK_DEADLOCK FALSE
